@@ -206,15 +206,17 @@ def close(a, b, rel=1e-10, abs_=0.0):
 #     ["pluscomp", key, amount]       obj = obj + <one component object>  (Element for a Substance, Substance for a
 #                                     Material) carrying the proportion `amount`
 #     ["mul", k]                      obj = obj * k  (Substance)  /  k * obj  (Material)
+#     ["iadd", pairs], ["imul", k]    augmented assignment  obj += other,  obj *= k  (same amounts as plus / mul;
+#                                     whether the object is updated in place or rebound is left to the library)
 # The reference state is nothing but the ordered dict {component: amount}.
 def model_apply(counts, op):
     c = dict(counts)
     if op[0] in ("add", "pluscomp"):
         c[op[1]] = (c[op[1]] + op[2]) if op[1] in c else op[2]
-    elif op[0] == "plus":
+    elif op[0] in ("plus", "iadd"):
         for k, v in op[1]:
             c[k] = (c[k] + v) if k in c else v
-    elif op[0] == "mul":
+    elif op[0] in ("mul", "imul"):
         c = {k: v * op[1] for k, v in c.items()}
     else:
         raise ValueError(op)
@@ -233,6 +235,8 @@ def op_class(counts, op):
         return "add-existing" if op[1] in counts else "add-new"
     if op[0] == "pluscomp":
         return "pluscomp-existing" if op[1] in counts else "pluscomp-new"
+    if op[0] in ("iadd", "imul"):
+        return op[0]
     if op[0] == "plus":
         keys = [k for k, _ in op[1]]
         if not any(k in counts for k in keys):
@@ -253,14 +257,23 @@ def history_tags(counts, history):
     return sorted(tags)
 
 
-def real_run(obj, history, make_other, material, make_component=None, counts=None, alive=None):
+def real_run(obj, history, make_other, material, make_component=None, counts=None, alive=None, after_step=None):
     """apply the history to the live object; make_other(pairs) builds the right operand of '+',
     make_component(key, amount) the single-component operand.  When `counts` (start amounts) and the list `alive`
     are given, every operand of a non-mutating operation is appended to `alive` as (role, object, amounts it must
     still have) so that the caller can re-read it afterwards."""
-    for op in history:
+    for i, op in enumerate(history):
+        if after_step is not None:
+            after_step(obj)          # reads between the steps (start object and every intermediate object)
         if op[0] == "add":
             obj.add(op[1], op[2])
+        elif op[0] == "iadd":
+            other = make_other(op[1])
+            obj += other
+            if alive is not None:
+                alive.append(("right-operand", other, dict((k, v) for k, v in op[1])))
+        elif op[0] == "imul":
+            obj *= op[1]
         else:
             left = obj
             if op[0] == "plus":
